@@ -93,6 +93,63 @@ def sim_cases(ctx, pexpect, n):
     return cases
 
 
+def sim_unicode(ctx, pexpect, n):
+    """the same simulated endpoint with an encoding set on the spawn object: the peer's bytes are multi-byte characters cut anywhere
+    by the reads.  Direct oracle: the texts returned, concatenated, are the decoding of the bytes taken from the kernel; EOF is
+    reported only when the kernel holds nothing and the peer is gone - in particular never because a read delivered only the
+    first bytes of a character"""
+    import codecs
+    rng = ctx.rng
+    tried = 0
+    chars = ['é'.encode(), '☃'.encode(), b'a', '😀'.encode()]
+    for it in range(n):
+        which = rng.choice([0, 1, 2])
+        buf0 = b''.join(rng.choice(chars) for _ in range(rng.choice([0, 1, 2])))
+        calls = [(rng.choice([1, 2, 3, 5, 50]), rng.random() < 0.25) for _ in range(rng.randint(1, 6))]
+        sched = []
+        for _ in range(rng.randint(0, 6 * len(calls))):
+            acts = []
+            if rng.random() < 0.45:
+                # the peer writes whole characters or PIECES of one (a character split over two writes)
+                ch = rng.choice(chars)
+                k = rng.randint(1, len(ch))
+                acts.append(('w', ch[:k]))
+                if k < len(ch):
+                    sched.append((acts, rng.choice([0, 1, 5])))
+                    acts = [('w', ch[k:])]
+            if rng.random() < 0.08:
+                acts.append(('exit',))
+            sched.append((acts, rng.choice([0, 0, 1, 2, 5, 100])))
+        sim = T.Sim(buf0, True, True, sched)
+        try:
+            obs, c = T.run_calls(pexpect, which, sim, calls, rng.random() < 0.4, encoding='utf-8')
+        except Exception as e:
+            ctx.hit('C06/sim-unicode', 'read_nonblocking (utf-8) raised %r under the simulated kernel' % (e,), {'which': which, 'buf0': list(buf0), 'sched': repr(sched), 'calls': calls})
+            return
+        tried += 1
+        written = b''
+        k = T.Sim(buf0, True, True, [])
+        for acts, _ in sched[:len(sched) - len(sim.sched)]:
+            for a in acts:
+                if a[0] == 'w' and k.open and k.alive:
+                    written += a[1]
+                k._peer([a])
+        taken = (buf0 + written)[:len(buf0 + written) - len(sim.buf)]
+        want = codecs.getincrementaldecoder('utf-8')('strict').decode(taken, False)
+        got = ''.join(o[0][1] for o in obs if o[0][0] == 0)
+        bad = None
+        if got != want:
+            bad = 'texts returned %r, but the bytes taken from the kernel %r decode to %r' % (got, taken, want)
+        for o in obs:
+            if o[0][0] == 1 and (o[1][0] or (o[1][1] and o[1][2])):
+                bad = 'EOF reported while the kernel still held %r / the peer was still connected' % (o[1][0],)
+        if bad:
+            ctx.hit('C06/sim-unicode', '%s transport, utf-8: %s' % (['pty', 'fd', 'socket'][which], bad),
+                    {'transport': which, 'buf0': list(buf0), 'sched': repr(sched), 'calls': calls, 'observed': repr(obs)})
+            return
+    ctx.oracle_stats['simulated_kernel_runs_unicode'] = tried
+
+
 def real_children(ctx, pexpect, sizes, maxreads):
     """real kernel: everything the peer wrote arrives once, in order, before EOF, on all four transports"""
     from pexpect import fdpexpect, popen_spawn, socket_pexpect
@@ -315,6 +372,7 @@ def run(ctx):
                         'PopenSpawn: the reader thread is modelled as atomic steps (one os.read + put) interleaved with the reader loop; real thread scheduling is exercised by the real-kernel oracle']
     ok = ctx.build('Props/C06.v', extra=['Transport/Run.v'])
     cases = sim_cases(ctx, pexpect, 30000 if thorough else 4000)
+    sim_unicode(ctx, pexpect, 10000 if thorough else 1500)
     if os.path.exists(os.path.join(common.COQ, 'Transport/Run.vo')):
         ctx.run_cases('read-sim', ['Transport.Model', 'Transport.Run'], 'run_transport', 'nat * kern * sched * list (nat * bool)', cases, shard=400)
         ctx.run_cases('sock-timeouts', ['Transport.Model', 'Transport.Run'], 'run_sock_timeouts', 'kern * sched * list (nat * bool) * list (option Z)', SOCK_CASES, shard=400)
